@@ -24,6 +24,12 @@ CHECKS = {
  "C08": ("exploration", "metamorphic runtime monitor (A, B, A+B over disjoint securities, separate processes)",
          "A, B and an interleaving A+B are run in different processes; each security's table and errors must be identical, errors must not name other securities, the combined aggregate must be the sum of the parts and in every run the aggregate must equal the securities' own totals.",
          "B contains deliberately impossible rows; whole-run load-stage errors are excluded.", "C08"),
+ "C15": ("exploration", "metamorphic runtime monitor (insert split, restate later rows)",
+         "Each split-free base history is compared with K variants carrying one inserted split (forward, reverse, decimal; for all affiliates or one row per affiliate; on an event's day, between events, after the last) and exactly restated later rows: gains, SfL amounts and cost bases must agree within 1e-9, share counts and per-share costs must scale by the ratio, acceptance must be identical.",
+         "Ratios are restricted to those whose restatement is exactly representable in decimal (prime factors 2 and 5).", "C15"),
+ "C16": ("exploration", "metamorphic runtime monitor (-b SYM:n:c vs opening purchase) + malformed-spec monitor on the binary",
+         "Every generated input is run with an opening position and, separately, with an equivalent purchase by the default affiliate 31-1000 days earlier; every cell of every later row, footers, errors and the aggregate must be identical, positions for absent securities must have no effect, and every malformed specification must make the binary exit non-zero with a message and no report (library entry point likewise).",
+         "n = 0 is compared with no purchase at all (a Buy of 0 shares is not expressible).", "C16"),
 }
 PENDING = {}
 
